@@ -145,7 +145,19 @@ def options(nd, script, opts, prog):
         taken = sum(1 for d in script if d[0] == "N" and d[1] == k and d[2] == "val")
         out = [["N", k, "stop", 0]]
         if taken < opts["maxiter"]:
-            out.insert(0, ["N", k, "val", val])
+            shape = opts.get("_forshapes", {}).get(k)
+            if shape:
+                # a tuple loop target: the iteration value has the target's shape, distinct integers at the leaves
+                ctr = [val]
+
+                def fill(sh):
+                    if isinstance(sh, list):
+                        return [fill(x) for x in sh]
+                    ctr[0] += 1
+                    return ctr[0]
+                out.insert(0, ["N", k, "val", fill(shape)])
+            else:
+                out.insert(0, ["N", k, "val", val])
         return out
     if nd.kind == "U":
         n = opts["_ntargets"].get(k, 2)
@@ -168,6 +180,14 @@ def ntargets(prog):
         if s["s"] == "assign" and s["e"].get("e") == "useq":
             t = s["targets"][0]
             out[s["e"]["k"]] = len(t.get("elts", [1]))
+    return out
+
+
+def forshapes(prog):
+    out = {}
+    for s in I.walk(prog["body"]):
+        if s["s"] == "for" and s["t"]["t"] == "tuple":
+            out[s["k"]] = I.ls_shape([s["t"]])
     return out
 
 
@@ -413,6 +433,7 @@ def main():
     try:
         for prog in job["progs"]:
             opts["_ntargets"] = ntargets(prog)
+            opts["_forshapes"] = forshapes(prog)
             runner = Runner(prog, work)
             paths = enumerate_paths(runner, opts, rng)
             vars_ = variants(prog, opts, rng)
